@@ -181,7 +181,11 @@ fn case(rec: &mut Rec, ctx: &Ctx, idx: u64, rng: &mut ChaCha20Rng) {
   }
   // --- mixtures in which no measurement reaches its threshold
   if tu >= 2 {
-    let m2 = rand_bytes_in(rng, 1..50);
+    let mut m2 = rand_bytes_in(rng, 1..50);
+    if m2 == m {
+      // short random measurements can coincide; the mixture needs a DIFFERENT one
+      m2.push(0x5a);
+    }
     let others: Vec<String> = (0..tu - 1)
       .filter_map(|_| parse(rec, &create_share(&m2, t, &epoch), &input).map(|x| x.share_b64))
       .collect();
